@@ -211,6 +211,58 @@ MODELS = ModelsProxy()
 
 
 # ---------------------------------------------------------------------------------------------------------------
+# list of Optional[(float, Node)] of symbolic length: the child results CutShortTipBranch._leave receives
+class OptPairList:
+    """read-only list whose entry k is None (none[k]) or the pair (dis[k], handle of row node[k] on `attach`)"""
+
+    def __init__(self, n, attach, node_cls, name="kidvals", on_element=None):
+        self.n = n
+        self.none = z3.Const(fresh_name(name + "_none"), z3.ArraySort(I, B))
+        self.dis = z3.Const(fresh_name(name + "_dis"), z3.ArraySort(I, z3.RealSort()))
+        self.node = z3.Const(fresh_name(name + "_node"), z3.ArraySort(I, I))
+        self.attach, self.node_cls = attach, node_cls
+        self.on_element = on_element
+        self.uid = next_uid()
+        self.frozen = True
+
+    def element(self, eng, k):
+        """entry k: forks the path on whether it is None"""
+        from .values import Obj
+
+        kz = to_z3(k, "int")
+        if eng.branch(eng.sbool(z3.Select(self.none, kz))):
+            return None
+        if self.on_element is not None:
+            self.on_element(eng, self, kz)
+        return (Sym(z3.Select(self.dis, kz), "real"), Obj(self.node_cls, dict(attach=self.attach, idx=Sym(z3.Select(self.node, kz), "int"), names=self.attach.fields["names"])))
+
+    def __pyvc_getitem__(self, eng, idx):
+        if isinstance(idx, slice):
+            raise Unsupported("slice of the child results")
+        n = zint(self.n)
+        iz = to_z3(idx, "int")
+        iz = z3.If(iz < 0, iz + n, iz)
+        if not eng.spec_mode:
+            eng.prove(eng.site("index-in-bounds"), z3.And(iz >= 0, iz < n), "safety")
+        return self.element(eng, iz)
+
+    def __pyvc_iter_seq__(self, eng):
+        return self.n, (lambda k: self.element(eng, k))
+
+    def __pyvc_snapshot__(self, memo):
+        return self
+
+
+_prev_len = [None]
+
+
+def _b_len(eng, args, kwargs):
+    if len(args) == 1 and isinstance(args[0], OptPairList):
+        return eng.snum(zint(args[0].n), "int")
+    return (_prev_len[0] or models._b_len)(eng, args, kwargs)
+
+
+# ---------------------------------------------------------------------------------------------------------------
 # np.count_nonzero, rank / select view (the model of pyvc/ext_C08.count_rs without its cross-mask clause), active only for a
 # carrier whose contract sets options["count_model"] = "rank-select"
 def count_rs(eng, mask):
@@ -258,6 +310,9 @@ def install():
     models.EXTRA_MODELS[set] = _b_set
     models.EXTRA_MODELS[any] = _b_any
     models.EXTRA_MODELS[all] = _b_all
+    if models.EXTRA_MODELS.get(len) is not _b_len:
+        _prev_len[0] = models.EXTRA_MODELS.get(len)
+        models.EXTRA_MODELS[len] = _b_len
     if models.EXTRA_MODELS.get(np.count_nonzero) is not _np_count_nonzero:
         _prev_count[0] = models.EXTRA_MODELS.get(np.count_nonzero)
         models.EXTRA_MODELS[np.count_nonzero] = _np_count_nonzero
